@@ -78,23 +78,20 @@ def rule_prune(prog, rep):
     for i, p in enumerate(caps):
         capname["arg1.%d" % i] = (p or "").split(".")[-1]
     rows = {}
-    for atoms, rb, path in enum_paths(clo):
-        known = {}
-        for f in _strip(atoms):
-            if f[0] != "callbool":
-                raise Undecided("retain closure branches on something other than a boolean call: %s" % (f,))
-            name, args, val = f[1], f[2], f[3]
-            if re.search(r"ExtendedType::is_built_in$", name) and args[0] == "arg3":
-                known["built_in"] = val
-            elif re.search(r"HashMap::<.*>::contains_key$", name) and capname.get(args[0]) == "all" and args[1] == "arg2":
-                known["is_scalar"] = val
-            elif re.search(r"HashSet::<.*>::contains$", name) and capname.get(args[0]) == "used_and_defined" and args[1] == "arg2":
-                known["used"] = val
-            else:
-                raise Undecided("retain closure: unrecognised atom %s(%s)" % (name, args))
-        leaf = return_value_on_path(clo, path)
-        if leaf not in ("const:true", "const:false"):
-            raise Undecided("retain closure returns %s" % leaf)
+
+    def classify(f):
+        if f[0] != "callbool":
+            raise Undecided("retain closure branches on something other than a boolean call: %s" % (f,))
+        name, args, val = f[1], f[2], f[3]
+        if re.search(r"ExtendedType::is_built_in$", name) and args[0] == "arg3":
+            return "built_in", val
+        if re.search(r"HashMap::<.*>::contains_key$", name) and capname.get(args[0]) == "all" and args[1] == "arg2":
+            return "is_scalar", val
+        if re.search(r"HashSet::<.*>::contains$", name) and capname.get(args[0]) == "used_and_defined" and args[1] == "arg2":
+            return "used", val
+        raise Undecided("retain closure: unrecognised atom %s(%s)" % (name, args))
+
+    def add_row(known, leaf):
         unknown = [a for a in ("built_in", "is_scalar", "used") if a not in known]
         for bits in range(1 << len(unknown)):
             a = dict(known)
@@ -104,6 +101,39 @@ def rule_prune(prog, rep):
             if key in rows and rows[key] != leaf:
                 raise Undecided("retain closure: two paths for row %s" % (key,))
             rows[key] = leaf
+
+    from ..flow import _bool_facts
+    from ..core import op_local
+    for atoms, rb, path in enum_paths(clo):
+        known = {}
+        for f in _strip(atoms):
+            k, v = classify(f)
+            known[k] = v
+        leaf = return_value_on_path(clo, path)
+        if leaf in ("const:true", "const:false"):
+            add_row(known, leaf)
+            continue
+        # the returned value is itself one of the atoms (`a || !b || c` ends in `c`): split the row
+        rl = None
+        for b in path:
+            for st in clo.stmts(b):
+                if st[0] == "=" and st[1][0] == 0 and not st[1][1] and st[2][0] == "use":
+                    rl = op_local(st[2][1])
+            t = clo.term(b)
+            if t[0] == "call" and t[3][0] == 0 and not t[3][1]:
+                rl = 0
+        fs = _strip(_bool_facts(clo, rl, True, 0)) if rl is not None else []
+        if len(fs) != 1:
+            raise Undecided("retain closure returns %s" % leaf)
+        k, v = classify(fs[0])
+        for val in (True, False):
+            # returned value is true exactly when atom k has value v
+            atom_val = v if val else (not v)
+            if k in known and known[k] != atom_val:
+                continue
+            kk = dict(known)
+            kk[k] = atom_val
+            add_row(kk, "const:true" if val else "const:false")
     if len(rows) != 8:
         raise Undecided("retain closure: %d of 8 rows covered" % len(rows))
     for (bi, sc, used), leaf in sorted(rows.items()):
